@@ -452,6 +452,10 @@ impl VisitMut for Rewriter {
                         if (m.method == "load_full" || m.method == "load") && m.args.is_empty() {
                             self.arc_vars.insert(n.clone());
                         }
+                        // (`swap(new)` with one argument is an arc-swap swap: it yields the Arc of the previous content)
+                        if m.method == "swap" && m.args.len() == 1 {
+                            self.arc_vars.insert(n.clone());
+                        }
                     }
                     // `let x = Arc::new(E);`: the Arc layer is dropped, so is a later `*x`
                     if let Expr::Call(c) = strip_parens(&init.expr) {
@@ -645,7 +649,9 @@ impl VisitMut for Rewriter {
                                     };
                                     let mut recv = (*it.receiver).clone();
                                     self.visit_expr_mut(&mut recv);
-                                    *e = parse_quote! { #recv.position_ptr_eq(#other) };
+                                    // (as for `any`: the compared handle may be a reference already, e.g. a loop variable)
+                                    let other: Expr = match other { Expr::Reference(r) => (*r.expr).clone(), o => o };
+                                    *e = parse_quote! { #recv.position_ptr_eq(&#other) };
                                     return;
                                 }
                             }
@@ -669,6 +675,25 @@ impl VisitMut for Rewriter {
                 }
                 self.unsupported.push("splice() other than (a..b, iter::empty())".into());
                 return;
+            }
+        }
+        // R8 `V.extend(W.iter().cloned())`: append a copy of another list
+        if let Expr::MethodCall(m) = e {
+            if m.method == "extend" && m.args.len() == 1 {
+                if let Expr::MethodCall(c1) = strip_parens(&m.args[0]) {
+                    if c1.method == "cloned" && c1.args.is_empty() {
+                        if let Expr::MethodCall(c2) = strip_parens(&c1.receiver) {
+                            if c2.method == "iter" && c2.args.is_empty() {
+                                let mut recv = (*m.receiver).clone();
+                                self.visit_expr_mut(&mut recv);
+                                let mut other = (*c2.receiver).clone();
+                                self.visit_expr_mut(&mut other);
+                                *e = parse_quote! { #recv.extend_from(&#other) };
+                                return;
+                            }
+                        }
+                    }
+                }
             }
         }
         // R7 await
